@@ -7,7 +7,7 @@
 #include <sys/stat.h>
 #include <inttypes.h>
 
-static char line[1 << 20], a1[1 << 19], a2[1 << 19], a3[1 << 19], a4[64];
+static char line[1 << 20], a1[1 << 19], a2[1 << 19], a3[1 << 19], a4[64], a5[4096];
 static unsigned char b1[1 << 18], b2[1 << 18];
 static char dir[4096], fsave[4200], fload[4200], fnone[4200];
 
@@ -71,8 +71,8 @@ int main(void) {
     write_file(fsave, "#\n", 2);
     while (fgets(line, sizeof line, stdin)) {
         if (line[0] == '#' || line[0] == '\n') continue;
-        char op[32]; a1[0] = a2[0] = a3[0] = a4[0] = 0;
-        sscanf(line, "%31s %s %s %s %63s", op, a1, a2, a3, a4);
+        char op[32]; a1[0] = a2[0] = a3[0] = a4[0] = a5[0] = 0;
+        sscanf(line, "%31s %s %s %s %63s %4095s", op, a1, a2, a3, a4, a5);
         if (!strcmp(op, "new")) {
             int f = atoi(a1);
             if (t && !dead) t->free(t);
@@ -138,6 +138,12 @@ int main(void) {
                     bl += hexto(buf + bl, sizeof buf - bl, o.data, o.size); buf[bl] = 0;
                     if (newmem) { free(o.name); free(o.data); }
                     if ((size_t)i < nrm && rm[i] == '1' && nr < sizeof rmres - 1) rmres[nr++] = t->removeobj(t, &o) ? '1' : '0';
+                    if (a5[0]) {      /* "walk ... <key>": reads between the steps; they do not modify the table, the walk must come out the same */
+                        static unsigned char kb[4096]; size_t kn = unhex(a5, kb); kb[kn] = 0;
+                        char *rk = dupbuf(kb, kn + 1); size_t sz = 0;
+                        void *d = t->get(t, rk, &sz, true); free(d); (void)t->getstr(t, rk, false); (void)t->size(t);
+                        scribble_free(rk, kn + 1);
+                    }
                 }
                 rmres[nr] = 0; scribble_free(nm, nl);
                 printf("walk %s %s rm=%s", ended ? "end" : "more", buf, rmres);
